@@ -34,9 +34,15 @@ def accuflux(idxs_ds, seq, data, nodata):
     """
     # intialize output with correct dtype
     accu = data.copy()
+    nan = np.isnan(nodata)  # a NaN nodata value is not equal to itself
     for idx0 in seq[::-1]:  # up- to downstream
         idx_ds = idxs_ds[idx0]
-        if idx0 != idx_ds and data[idx_ds] != nodata and data[idx0] != nodata:
+        if (
+            idx0 != idx_ds
+            and data[idx_ds] != nodata
+            and data[idx0] != nodata
+            and not (nan and (np.isnan(data[idx_ds]) or np.isnan(data[idx0])))
+        ):
             accu[idx_ds] += accu[idx0]
     return accu
 
@@ -63,9 +69,15 @@ def accuflux_ds(idxs_ds, seq, data, nodata):
     """
     # intialize output with correct dtype
     accu = data.copy()
+    nan = np.isnan(nodata)  # a NaN nodata value is not equal to itself
     for idx0 in seq:  # down- to upstream
         idx_ds = idxs_ds[idx0]
-        if idx0 != idx_ds and data[idx_ds] != nodata and data[idx0] != nodata:
+        if (
+            idx0 != idx_ds
+            and data[idx_ds] != nodata
+            and data[idx0] != nodata
+            and not (nan and (np.isnan(data[idx_ds]) or np.isnan(data[idx0])))
+        ):
             accu[idx0] += accu[idx_ds]
     return accu
 
